@@ -66,6 +66,7 @@ type c06 struct {
 	pdtFrameF                                        *types.Var
 	flagRW, flagCoW, flagPresent, pageSize           uint64
 	guardOK                                          map[*ssa.Function]bool
+	igs                                              map[*ssa.Function]*IG
 }
 
 func runC06(c *Ctx) {
@@ -204,7 +205,7 @@ func (x *c06) r1() {
 
 // ---- R2 ----
 
-func (x *c06) classifyFrameArg(fn *ssa.Function, a ssa.Value) (string, bool) {
+func (x *c06) classifyFrameArg(fn *ssa.Function, a ssa.Value, at ssa.Instruction) (string, bool) {
 	m := x.m
 	a = strip(a)
 	// (G) the guarded parameter of Map, seen from its walker closure or Map itself
@@ -214,9 +215,27 @@ func (x *c06) classifyFrameArg(fn *ssa.Function, a ssa.Value) (string, bool) {
 		}
 	}
 	// (A) freshly allocated
-	vals := []ssa.Value{a}
-	if vs, _, ok := cellStoredValues(a); ok {
-		vals = vs
+	// the values the argument can have here: through a local it was stored in,
+	// and through the returns of a spliced helper that can lead here
+	var vals []ssa.Value
+	if x.igs == nil {
+		x.igs = map[*ssa.Function]*IG{}
+	}
+	g := x.igs[fn]
+	if g == nil {
+		g = scanIG(m, fn, nil)
+		x.igs[fn] = g
+	}
+	cases := []ValCase{{Val: a}}
+	if n, ok := g.Idx[at]; ok {
+		cases = g.valueCasesAt(a, n)
+	}
+	for _, vc := range cases {
+		if vs, _, ok := cellStoredValues(vc.Val); ok {
+			vals = append(vals, vs...)
+		} else {
+			vals = append(vals, vc.Val)
+		}
 	}
 	allAlloc := len(vals) > 0
 	for _, v := range vals {
@@ -293,7 +312,7 @@ func (x *c06) r2() {
 		key := m.fnName(fn)
 		if recv, args, ok := methodCall(m, in, x.setFrame); ok {
 			count["SetFrame"]++
-			cls, ok := x.classifyFrameArg(fn, args[0])
+			cls, ok := x.classifyFrameArg(fn, args[0], in)
 			k := fmt.Sprintf("SetFrame %s #%d", key, count["SetFrame "+key])
 			count["SetFrame "+key]++
 			if ok {
@@ -595,7 +614,7 @@ func (x *c06) entryProvenance(entryLoad ssa.Value) {
 // closureArgOfAny: fn (a closure of parent) is passed to callee from parent.
 func (m *Module) closureArgOfAny(parent, callee, fn *ssa.Function) []*ssa.Function {
 	var out []*ssa.Function
-	for _, b := range parent.Blocks {
+	for _, b := range m.blocksOf(parent) {
 		for _, in := range b.Instrs {
 			if !m.callsTo(in, callee) {
 				continue
@@ -622,17 +641,26 @@ func (x *c06) recovery(g *IG, ret int) {
 		return
 	}
 	// faultPage.Address(): Address(PageFromAddress(uintptr(readCR2())))
+	// the address of the faulting page: the fault address (CR2) rounded down to
+	// a page, however it is written (Page.Address(PageFromAddress(a)), a &^ 4095, ...)
+	zf := &Polyizer{Inline: true}
+	var cr2 []Poly
+	for _, n := range g.callNodes(readCR2) {
+		if v, ok := g.Ins[n].(ssa.Value); ok {
+			cr2 = append(cr2, pDown(12, zf.Of(v)))
+		}
+	}
 	isFaultAddr := func(v ssa.Value) bool {
-		call, ok := m.resultOf(v, pageAddress, -1)
-		if !ok {
+		if !isIntegral(v.Type()) {
 			return false
 		}
-		pf, ok := m.resultOf(call.Common().Args[0], pageFromAddr, -1)
-		if !ok {
-			return false
+		p := zf.Of(through(v))
+		for _, want := range cr2 {
+			if p.equal(want) {
+				return true
+			}
 		}
-		_, ok = m.resultOf(stripConv(pf.Common().Args[0]), readCR2, -1)
-		return ok
+		return false
 	}
 	isTmpAddr := func(v ssa.Value) bool {
 		call, ok := m.resultOf(v, pageAddress, -1)
@@ -681,7 +709,17 @@ func (x *c06) recovery(g *IG, ret int) {
 		}},
 		{"SetFrame(new frame)", func(n int) bool {
 			_, a, ok := methodCall(m, g.Ins[n], x.setFrame)
-			return ok && isCopy(a[0])
+			if !ok {
+				return false
+			}
+			// every value the argument can have here (through a helper's returns)
+			cases := g.valueCasesAt(a[0], n)
+			for _, vc := range cases {
+				if !isCopy(vc.Val) {
+					return false
+				}
+			}
+			return len(cases) > 0
 		}},
 		{"TLB flush of the fault page", func(n int) bool {
 			return m.callsTo(g.Ins[n], x.flush) && isFaultAddr(g.callArgs(n)[0])
